@@ -8,7 +8,7 @@ review (equivalent mutant, or a gap in a check).
 usage: mutation_sweep.py [--n 40] [--jobs 3] [--seed 1] [--files src/tcp.cpp,...] [--out /tmp/mutsweep]
 Results: <out>/results.jsonl (one line per mutant) and a summary table on stdout."""
 import json, os, random, re, subprocess, sys, shutil, time
-from concurrent.futures import ThreadPoolExecutor
+from concurrent.futures import ThreadPoolExecutor, as_completed
 HERE = os.path.dirname(os.path.dirname(os.path.abspath(__file__)))
 REPO = "/repo"
 
@@ -146,7 +146,7 @@ def one(job):
         sh(f"git -C {HERE} worktree add -q --detach {V} HEAD && cp -r {HERE}/lean/.lake {V}/lean/.lake")
         for chk in checks:
             t = time.time()
-            r = sh(f"python3 check.py {chk} --tier quick", cwd=V, env=dict(os.environ, VERIF_REPO=W))
+            r = sh(f"python3 check.py {chk} --tier quick", cwd=V, env=dict(os.environ, VERIF_REPO=W, VERIF_NO_INTENSIFY=os.environ.get("SWEEP_INTENSIFY", "") and "" or "1"))
             first = next((l[:200] for l in r.stdout.split("\n") if "violates" in l or "differs" in l or "FAULT" in l or "no longer checks" in l), "")
             res["checks"][chk] = dict(exit=r.returncode, wall_s=round(time.time() - t), first=first)
             if r.returncode == 1:
@@ -174,7 +174,8 @@ def main():
         if m:
             todo.append((f"m{seed}_{len(todo):03d}", rel, m[0], m[1], m[2], MAP[rel], out))
     with ThreadPoolExecutor(jobs) as ex, open(os.path.join(out, f"results_{seed}.jsonl"), "a") as f:
-        for r in ex.map(one, todo):
+        for fut in as_completed([ex.submit(one, t) for t in todo]):
+            r = fut.result()
             f.write(json.dumps(r) + "\n"); f.flush()
             tag = "DISCARD" if r.get("discarded") else ("killed " if r.get("killed") else "SURVIVED")
             by = next((k for k, v in r.get("checks", {}).items() if v["exit"] == 1), "-")
